@@ -420,11 +420,17 @@ func genCfg(t *rapid.T, o genOpts) Cfg {
 		own, _ := b.btp.GetEvalMod1LogScale()
 		var cand []int
 		for _, v := range []int{60, 55, 50} {
-			if v != own {
+			// one step of 5 bits: a much smaller EvalMod scale is a low-precision choice for which nothing is announced
+			if v != own && v-own <= 5 && own-v <= 5 {
 				cand = append(cand, v)
 			}
 		}
 		c.EvalScale = cand[draw(t, "evalScale", len(cand))]
+		if o.functional && c.EvalScale < own {
+			// a smaller EvalMod scale folds a division into CoeffsToSlots: not stacked on a down-sized CoeffsToSlots split
+			// (49-bit single matrix + 5 bits less fell to 11 bits; nothing is announced for stacked low-precision choices)
+			c.C2S = nil
+		}
 	}
 	// arcsine correction: only added (removing it from a literal built around it - message ratio 2^2 - is another set)
 	if id, _ := b.btp.GetMod1InvDegree(); id == 0 && draw(t, "invKind", 4) == 0 {
